@@ -22,6 +22,18 @@ import (
 type WaitGroup = sync.WaitGroup
 type Locker = sync.Locker
 
+// Types of package sync that never block a task across a scheduling point are passed through
+// unchanged, so that code under test which starts to use them still builds under the scheduler
+// (their internal locks are taken and released within one call, without a yield in between).
+// sync.Cond is deliberately absent: waiting on one would block the running task outside the
+// scheduler's view, which it would report as a deadlock that the real program does not have.
+type Map = sync.Map
+type Pool = sync.Pool
+
+func OnceFunc(f func()) func()                                 { return sync.OnceFunc(f) }
+func OnceValue[T any](f func() T) func() T                     { return sync.OnceValue(f) }
+func OnceValues[T1, T2 any](f func() (T1, T2)) func() (T1, T2) { return sync.OnceValues(f) }
+
 func goid() int64 {
 	var buf [64]byte
 	b := buf[:runtime.Stack(buf[:], false)]
@@ -56,12 +68,12 @@ type Yield struct {
 }
 
 type Sched struct {
-	mu      sync.Mutex
-	tasks   []*Task
-	byGid   map[int64]*Task
-	parked  chan *Task
-	Choose  func(y Yield) int // returns index into y.Enabled
-	Trace   []Yield
+	mu       sync.Mutex
+	tasks    []*Task
+	byGid    map[int64]*Task
+	parked   chan *Task
+	Choose   func(y Yield) int // returns index into y.Enabled
+	Trace    []Yield
 	Deadlock bool
 	Blocked  []string
 	Leaked   []string // locks still held when every task had finished (a return path without Unlock)
